@@ -35,6 +35,12 @@ FIXED = {
         V("Loose", "Master", 0x4005, ["Seg", (0, 1)]), V("Item", "UnsignedInt", 0x4006, ["Seg", (0, 1), "Loose"]),
         V("Sub", "Master", 0x4007, ["Seg", (0, 1), "Loose"]), V("Leaf", "Binary", 0x4008, ["Seg", (0, 1), "Loose", "Sub", (2, None)]),
     ],
+    # user-declared global elements: paths that consist of a placeholder only, and children of a global master
+    "global_only": [
+        V("Top", "Master", 0x81), V("Tagline", "Utf8", 0x4010, [(1, None)]), V("Pad", "Binary", 0x4011, [(None, 2)]),
+        V("Free", "Master", 0x4012, [(None, None)]), V("FreeItem", "UnsignedInt", 0x4013, [(None, None), "Free"]),
+        V("Exact", "Float", 0x4014, [(2, 2)]), V("Inner", "Integer", 0x4015, ["Top"]),
+    ],
     # ids of 1 to 8 bytes
     "id_widths": [
         V("W1", "Master", 0x81), V("W2", "UnsignedInt", 0x4001, ["W1"]), V("W3", "Integer", 0x200001, ["W1"]), V("W4", "Utf8", 0x10000001, ["W1"]),
@@ -85,6 +91,11 @@ def seeded(seed, n):
                 path = list(ppath)
                 if rnd.random() < 0.15:
                     path = path + [(rnd.choice([None, 1]), rnd.choice([None, 3]))]
+            elif rnd.random() < 0.4:
+                # a global element of the user's own
+                lo = rnd.choice([None, 0, 1, 2])
+                hi = rnd.choice([None, 2, 4])
+                path = [(lo, hi)]
             else:
                 path = []
             decl.append(V(name, ty, fresh_id(), path))
